@@ -181,13 +181,11 @@ def mulChecked (w : Nat) (m : Nat) (x : Int) : Option Int :=
 /-! ### integer text (lexical-core `write`, atoi `from_radix_10_signed_checked` as used by
 `parser_primitive!`) -/
 
-def digitChar (d : Nat) : Char := Char.ofNat (48 + d)
-
-/-- `lexical_core::write` of an integer -/
+/-- `lexical_core::write` of an integer: optional `-`, then the decimal digits -/
 def formatInt (x : Int) : List Char :=
-  if x < 0 then '-' :: (digits x.natAbs).map digitChar else (digits x.natAbs).map digitChar
+  if x < 0 then '-' :: Nat.toDigits 10 x.natAbs else Nat.toDigits 10 x.natAbs
 
-def isDigit (c : Char) : Bool := 48 ≤ c.toNat && c.toNat ≤ 57
+def isDigit (c : Char) : Bool := c.isDigit
 def digitVal (c : Char) : Nat := c.toNat - 48
 
 /-- ASCII whitespace of `<[u8]>::trim_ascii*` -/
@@ -236,7 +234,7 @@ def parseInt (lo hi : Int) (s : List Char) : Option Int :=
 /-- `format_decimal_str(&value.to_string(), precision, scale)` -/
 def formatDecimal (v : Int) (p : Nat) (s : Int) : List Char :=
   let sign : List Char := if v < 0 then ['-'] else []
-  let rest0 := (digits v.natAbs).map digitChar
+  let rest0 := Nat.toDigits 10 v.natAbs
   -- `bound = precision.min(rest.len()) + sign.len()`: at most `precision` digits are kept
   let rest := rest0.take (min p rest0.length)
   if s = 0 then sign ++ rest
